@@ -94,6 +94,20 @@ def fuzz(ctx):
                     sig = sig or s
                 res["failures"].append(dict(kind="fuzz", replay=final, msg="libFuzzer artifact %s of %s (%s corpus): %s" % (f, pr["target"], pr["kind"], (re.search(r"SUMMARY: [^\n]*", last) or re.search(r"runtime error: [^\n]*", last) or [""])[0] if True else ""),
                                             output=last[-3000:], sig=sig, confirmed=confirmed))
+            elif f.startswith("timeout-") and os.path.getsize(path) <= 4096:
+                # hang rule: a small input that exceeds 20 s (>= 10^4 x the normal cost) three times in isolation is a hang
+                hangs = 0
+                for _ in range(3):
+                    rc, o = _run([builder.exe(pr["target"]), "-timeout=20", path], env, rundir, 120)
+                    if rc == 70 or rc == -999:
+                        hangs += 1
+                if hangs == 3:
+                    final = os.path.join(ctx["viol_dir"], "%s-%s-%s" % (ctx["pid"], pr["target"], f))
+                    shutil.copy(path, final)
+                    res["failures"].append(dict(kind="fuzz-hang", replay=final, msg="input of %d bytes does not terminate within 20 s (3 of 3 isolated runs) in %s" % (os.path.getsize(path), pr["target"]),
+                                                output="", sig="hang." + pr["target"], confirmed=True))
+                else:
+                    res["inconclusive"].append("fuzz %s/%s: %s did not reproduce as a hang (%d/3)" % (pr["target"], pr["kind"], f, hangs))
             elif f.startswith(("timeout-", "oom-", "slow-unit-")):
                 res["inconclusive"].append("fuzz %s/%s: %s (load noise unless it reproduces as a hang)" % (pr["target"], pr["kind"], f))
     res["hashes"] = [hashlib.sha1(x.encode()).hexdigest()[:16] for x in seen_corpus]
@@ -114,7 +128,7 @@ def replay(ctx):
         target = "fuzz_reader"
     env = dict(env)
     env["ASAN_OPTIONS"] = env.get("ASAN_OPTIONS", "") + ":max_allocation_size_mb=64"
-    r = subprocess.run([builder.exe(target), os.path.abspath(path)], env=env)
+    r = subprocess.run([builder.exe(target), "-timeout=20", os.path.abspath(path)], env=env)
     if r.returncode != 0:
         print("VIOLATION property=%s replay=%s" % (ctx["pid"], path))
         return 1
